@@ -14,8 +14,8 @@ import (
 	"github.com/storacha/go-ucanto/core/receipt"
 	"github.com/storacha/go-ucanto/core/receipt/fx"
 	"github.com/storacha/go-ucanto/core/result"
-	"github.com/storacha/go-ucanto/did"
 	"github.com/storacha/go-ucanto/core/schema"
+	"github.com/storacha/go-ucanto/did"
 	"github.com/storacha/go-ucanto/server"
 	"github.com/storacha/go-ucanto/ucan"
 	"github.com/storacha/go-ucanto/validator"
@@ -46,7 +46,7 @@ func genC08(cfg Config, emit Emit) error {
 		n = 30000
 	}
 	o := genOpts{maxDepth: 4, sessions: true, sessionPct: 25, caveats: true, caveatPct: 30,
-		kinds: []string{"none", "none", "wrongkey", "tamper", "aud", "resource", "ability", "expired", "revoke", "policy", "decoys", "permute", "missing", "nonowner", "case", "nearmiss"}}
+		kinds: []string{"none", "none", "wrongkey", "tamper", "aud", "resource", "ability", "expired", "revoke", "policy", "decoys", "permute", "missing", "nonowner", "case", "nearmiss", "didurl"}}
 	genWorlds(cfg, n, o, func(w *AWorld, class string) {
 		r := cfg.Rng
 		res := []string{"ok", "okfx", "err"}
@@ -152,7 +152,24 @@ func (cw *CWorld) methodOptions(log *runLog, calls *[]handlerCall, mu *sync.Mute
 				return okOut{1}, nil, nil
 			})))
 	}
+	// and one whose caveats are read by the library's struct reader
+	if ts, err := ipldLoad([]byte("type LibCaveats struct {\n size optional Int\n label optional String\n}")); err == nil {
+		capb := validator.NewCapability[libCaveats]("lib/struct", schema.DIDString(), schema.Struct[libCaveats](ts.TypeByName("LibCaveats"), nil), nil)
+		opts = append(opts, server.WithServiceMethod("lib/struct", server.Provide(capb,
+			func(cap ucan.Capability[libCaveats], inv invocation.Invocation, ctx server.InvocationContext) (okOut, fx.Effects, error) {
+				return okOut{2}, nil, nil
+			})))
+	}
 	return opts
+}
+
+type libCaveats struct {
+	Size  *int64
+	Label *string
+}
+
+func (c libCaveats) ToIPLD() (ipld.Node, error) {
+	return NbMap{F: map[string]any{}}.ToIPLD()
 }
 
 // buildServerWith makes a real server for the world with the given service methods; `lax` = another
@@ -199,7 +216,12 @@ func (cw *CWorld) serveBatch(srv server.ServerView, calls *[]handlerCall) (statu
 	}
 	var invs []invocation.Invocation
 	for _, id := range w.Invs {
-		invs = append(invs, cw.D[id])
+		if cw.phase == "permissive" && cw.Full != nil {
+			// history: the same invocation (same link) sent with every proof embedded
+			invs = append(invs, cw.Full[id])
+		} else {
+			invs = append(invs, cw.D[id])
+		}
 	}
 	resp, err := client.Execute(invs, conn)
 	if err != nil {
@@ -297,7 +319,9 @@ func execServe(args []string) (res Result) {
 	// history: the same service methods are also deployed on another, laxer server, which saw the batch first
 	if ph := historyPhase(cw.D[w.Invs[0]].Link().String()); ph == "permissive" {
 		if other, err := cw.buildServerWith(log, methods, true); err == nil {
+			cw.phase = ph
 			cw.serveBatch(other, &calls)
+			cw.phase = ""
 			mu.Lock()
 			calls = nil
 			mu.Unlock()
